@@ -12,6 +12,7 @@ package main
 
 import (
 	"context"
+	"math/big"
 	"encoding/json"
 	"fmt"
 	"os"
@@ -208,6 +209,12 @@ func (sc *scen) step(st planStep, flavor string) {
 	// ---- monitors on every revision the server signed and handed to the Contractor
 	for _, c := range calls {
 		sc.judgeCall(o, c, where)
+		if o.validate != nil {
+			if err := o.validate(); err != nil {
+				sc.failf("c08-out-of-range-request-accepted", "%s: the server signed and submitted %s (revision %d), but core's validation of the request against the latest revision and the host's settings says: %v",
+					where, c.Kind, c.Rev.RevisionNumber, err)
+			}
+		}
 	}
 	if len(calls) > 1 {
 		sc.failf("c08-more-than-one-persist", "%s: the server made %d mutating Contractor calls in one RPC", where, len(calls))
@@ -259,7 +266,7 @@ func (sc *scen) step(st planStep, flavor string) {
 				ledger = sc.pbal
 			}
 			for _, d := range c.Deposits {
-				ledger[d.Account] = ledger[d.Account].Add(d.Amount)
+				ledger[d.Account] = satAdd(ledger[d.Account], d.Amount)
 			}
 		}
 	}
@@ -435,8 +442,17 @@ func (sc *scen) judgeCall(o *outcome, c call, where string) {
 			sc.failf("c08-cost-mismatch", "%s: revision %d lowers the renter payout by %v, the amount due is %v", where, rev.RevisionNumber, paid, *o.expCost)
 		}
 		if c.Kind != "revise" {
-			if t, over := sumDeposits(c.Deposits); over || !t.Equals(paid) {
-				sc.failf("c08-deposit-total-mismatch", "%s: revision %d lowers the renter payout by %v but credits %v", where, rev.RevisionNumber, paid, t)
+			// exact arithmetic: the amounts may not fit 128 bits together
+			credited := new(big.Int)
+			for _, d := range c.Deposits {
+				credited.Add(credited, d.Amount.Big())
+			}
+			switch credited.Cmp(paid.Big()) {
+			case 1:
+				sc.failf("c08-credited-more-than-paid", "%s: revision %d lowers the renter payout by %v H but %s credits %v H to %d accounts",
+					where, rev.RevisionNumber, paid.Big(), c.Kind, credited, len(c.Deposits))
+			case -1:
+				sc.failf("c08-deposit-total-mismatch", "%s: revision %d lowers the renter payout by %v H but credits only %v H", where, rev.RevisionNumber, paid.Big(), credited)
 			}
 		}
 		if !c.Usage.RenterCost().Equals(paid) {
@@ -600,7 +616,7 @@ func raceScenario(w *world, seed uint64) []failure {
 				nok++
 				ct.rev = c.Rev
 				for _, d := range c.Deposits {
-					sc.bal[d.Account] = sc.bal[d.Account].Add(d.Amount)
+					sc.bal[d.Account] = satAdd(sc.bal[d.Account], d.Amount)
 				}
 			}
 		}
@@ -760,6 +776,14 @@ func runC08(c *hx.Ctx) {
 			}
 			p.Steps = append(p.Steps, planStep{"append", "none"}, planStep{"refresh-partial", "none"}, planStep{"roots", "renewed-cid"},
 				planStep{"fund", "renewed-cid"}, planStep{"free", "renewed-cid"}, planStep{"latest", "none"})
+		case 3: // renew / refresh at the host's collateral limit on a contract grown in un-broadcast revisions
+			p.Flavor = "rich"
+			p.Steps = []planStep{{"form", "none"}, {"append", "none"}, {"append", "none"}, {"fund", "none"}, {"append", "none"}, {"append", "none"},
+				{"renew", "coll-edge-above"}, {"renew", "coll-max-exact"}, {"refresh-partial", "coll-edge-above"}, {"refresh-full", "coll-edge-above"},
+				{"refresh-partial", "coll-max-exact"}, {"renew", "coll-edge"}, {"append", "none"}, {"append", "none"},
+				{"renew", "coll-edge-above"}, {"refresh-partial", "coll-edge-below"}, {"append", "none"}, {"fund", "overflow-early"},
+				{"fund", "overflow-early-2"}, {"fund", "overflow"}, {"replenish-accounts", "overflow-early"}, {"replenish-pools", "overflow"},
+				{"renew", "coll-edge-below"}, {"roots", "none"}}
 		case 2: // every revising RPC, well-formed, after the proof height has been reached
 			p.Flavor = "short"
 			p.Steps = []planStep{{"form", "none"}, {"append", "none"}, {"append", "none"}, {"fund", "none"}, {"expire", "none"}}
